@@ -293,6 +293,32 @@ pub fn run_val_family(ctx: &Ctx, fam: &ValFamily) -> Stats {
             if !ok {
                 return;
             }
+            // runs of three same-length sequences ending in a near-valid one
+            let mut tk = 0usize;
+            let ok = memgen::utf8_run_triples(|a1, a2, s| {
+                tk += 1;
+                if tk % LANES != lane {
+                    return true;
+                }
+                for (pre, tail) in [(0usize, 1usize), (13, 0), (2, 17)] {
+                    k += 1;
+                    let mut src8: Vec<u8> = (0..pre).map(|i| b'a' + i as u8).collect();
+                    src8.extend_from_slice(a1);
+                    src8.extend_from_slice(a2);
+                    src8.extend_from_slice(s);
+                    src8.extend((0..tail).map(|i| b'A' + i as u8));
+                    let mut c = VCase { f, src8, src16: vec![], align: fam.aligns[k % fam.aligns.len()], force_scalar: fam.force_scalar };
+                    c.sanitise();
+                    st.class("run-of-three-same-length-sequences-ending-near-valid");
+                    if !run(c, st) {
+                        return false;
+                    }
+                }
+                !(tk % 4096 == 0 && fw::should_stop())
+            });
+            if !ok {
+                return;
+            }
             for (ni, s) in near.iter().enumerate() {
                 if ni % LANES != lane {
                     continue;
